@@ -185,7 +185,7 @@ func VerifC05Boundary() {
 	present := nd.Choice("target-present", 2) == 1
 	hasZ := false
 	if present {
-		it := vItem{"p": vS("t"), "s": vS(ts), "v": vS("old")}
+		it := vItem{"p": vS("t"), "s": vS(ts), "v": vS("old"), "d.t": vS("old")}
 		if nd.Choice("target-has-z", 2) == 1 {
 			hasZ = true
 			it["z"] = boundary[nd.Choice("boundary-value", len(boundary))]
@@ -197,7 +197,16 @@ func VerifC05Boundary() {
 	n0 := count()
 	var cond string
 	var want bool
-	switch nd.Choice("cond", 5) {
+	var names map[string]string
+	switch nd.Choice("cond", 9) {
+	case 5: // two attributes neither the target nor anything else has: nothing equals nothing, anything differs
+		cond, want = "nosuch1 = nosuch2", false
+	case 6:
+		cond, want = "nosuch1 <> nosuch2", true
+	case 7: // an attribute whose name contains a dot, reachable only through a #name: it is that attribute
+		cond, want, names = "attribute_exists(#d)", present, map[string]string{"#d": "d.t"}
+	case 8:
+		cond, want, names = "attribute_not_exists(#d) OR #d <> :old", !present, map[string]string{"#d": "d.t"}
 	case 0:
 		cond, want = "attribute_exists(z)", hasZ
 	case 1:
@@ -219,17 +228,17 @@ func VerifC05Boundary() {
 	switch op {
 	case 0:
 		_, err = c.PutItem(vCtx, &dynamodb.PutItemInput{TableName: aws.String(vTbl), Item: vItem{"p": vS("t"), "s": vS(ts), "v": vS("new")},
-			ConditionExpression: aws.String(cond), ExpressionAttributeValues: vals})
+			ConditionExpression: aws.String(cond), ExpressionAttributeValues: vals, ExpressionAttributeNames: names})
 	case 1:
 		uv := vItem{":n": vS("new")}
 		for k, v := range vals {
 			uv[k] = v
 		}
 		_, err = c.UpdateItem(vCtx, &dynamodb.UpdateItemInput{TableName: aws.String(vTbl), Key: key,
-			UpdateExpression: aws.String("SET v = :n"), ConditionExpression: aws.String(cond), ExpressionAttributeValues: uv})
+			UpdateExpression: aws.String("SET v = :n"), ConditionExpression: aws.String(cond), ExpressionAttributeValues: uv, ExpressionAttributeNames: names})
 	case 2:
 		_, err = c.DeleteItem(vCtx, &dynamodb.DeleteItemInput{TableName: aws.String(vTbl), Key: key,
-			ConditionExpression: aws.String(cond), ExpressionAttributeValues: vals})
+			ConditionExpression: aws.String(cond), ExpressionAttributeValues: vals, ExpressionAttributeNames: names})
 	}
 	var ccf *types.ConditionalCheckFailedException
 	got, gerr := vGet(c, key)
